@@ -123,3 +123,52 @@ package shard
 //@ func (*Shard).setModeStorage
 //@   property C43
 //@   ensures [reported_mode_untouched] s.info.Mode == old(s.info.Mode)
+
+// ---- C15 / C09: order of the metadata and data steps.
+// Put: the metabase learns about an object only after its bytes were accepted by the
+// write-cache or the blobstor (a crash in between leaves an unlisted blob, never a listed
+// object without data). deleteObjs: cached copies of the given ids are dropped first, the
+// blob of an id is deleted only after the metabase removed that id, and every id the metabase
+// reports as removed gets its blobstor deletion attempted, whatever happened in the cache.
+
+//@ ghost pred dataStored() bool
+//@ ghost pred metaRemoved() bool
+//@ ghost pred cacheDropAttempted() bool
+//@ ghost pred blobDeleteAttempted() bool
+
+//@ callrule c15_data_step_of_put in (*Shard).Put
+//@   property C15
+//@   callee (writecache.Cache).Put, (common.Storage).Put
+//@   pureeffect
+//@   defines err == nil ==> dataStored()
+//@ callrule c15_metadata_after_data in (*Shard).Put
+//@   property C15
+//@   callee (*metabase.DB).PutCounted
+//@   pureeffect
+//@   requires [object_listed_only_after_its_bytes_are_stored] dataStored()
+
+//@ callrule c09_cache_drop in (*Shard).deleteObjs
+//@   property C09, C15
+//@   callee (writecache.Cache).Delete
+//@   pureeffect
+//@   defines cacheDropAttempted()
+//@ callrule c09_metadata_removal in (*Shard).deleteObjs
+//@   property C09, C15
+//@   callee (*metabase.DB).Delete
+//@   pureeffect
+//@   requires [cached_copies_dropped_before_metadata] hasWriteCache ==> cacheDropAttempted()
+//@   defines err == nil ==> metaRemoved()
+//@ callrule c09_blob_after_metadata in (*Shard).deleteObjs
+//@   property C09, C15
+//@   callee (common.Storage).Delete
+//@   pureeffect
+//@   requires [blob_deleted_only_after_metadata_removal] metaRemoved()
+//@   defines blobDeleteAttempted()
+//@ callrule c09_delete_collaborators in (*Shard).deleteObjs
+//@   property C09, C15
+//@   callee (*shard.Shard).hasWriteCache, (*shard.Shard).addObjectCounter, (*shard.Shard).addToContainerSize, (*shard.Shard).addToPayloadCounter, shard.logOp, id.NewAddress, (id.ID).*, (mode.Mode).*
+//@   pureeffect
+//@ func (*Shard).deleteObjs
+//@   property C09, C15
+//@   loop 1 invariant rangeindex >= 0 ==> cacheDropAttempted()
+//@   loop 3 iteration [every_removed_id_gets_its_blob_deletion_attempted] blobDeleteAttempted()
